@@ -440,6 +440,9 @@ func genC15(rt *rapid.T) c15Case {
 		c.BadAt = rapid.IntRange(0, total).Draw(rt, "badAt")
 	case "encoder_fail":
 		c.FailAt = rapid.IntRange(1, len(c.Events)).Draw(rt, "failAt")
+		// the login may arrive after some records: the failure then hits the
+		// release of the hold queue
+		c.LoginAt = rapid.IntRange(0, total).Draw(rt, "loginAtLines")
 	case "bad_login_pid":
 		c.BadPID = pick(rt, "badpid", []string{"", "abc", "12x", "0x10", "1.5", "(none)", "?"})
 	case "invalid_login":
@@ -457,11 +460,14 @@ func execC15(c c15Case) Outcome {
 	rig := newReadRig(rec)
 	defer rig.stop()
 	l1 := loginFor(0, hop{K: "login", P: 1})
-	if err := rig.login(l1); err != nil {
-		return fail("login: %v", rig.exitErr)
-	}
-	if err := rig.loginBarrier(); err != nil {
-		return fail("barrier: %v", rig.exitErr)
+	lateLogin := c.Kind == "encoder_fail" && c.LoginAt > 0
+	if !lateLogin {
+		if err := rig.login(l1); err != nil {
+			return fail("login: %v", rig.exitErr)
+		}
+		if err := rig.loginBarrier(); err != nil {
+			return fail("barrier: %v", rig.exitErr)
+		}
 	}
 	events := append([]audEvent{}, c.Events...)
 	if c.Kind == "bad_login_pid" {
@@ -491,6 +497,15 @@ func execC15(c c15Case) Outcome {
 		if c.Kind == "invalid_login" && sent == c.LoginAt {
 			return c15InvalidLogin(rig, c)
 		}
+		if lateLogin && sent == c.LoginAt {
+			lateLogin = false
+			if err := rig.login(l1); err != nil {
+				return c15AfterExit(rig, c, rec, sent, "")
+			}
+			if err := rig.loginBarrier(); err != nil {
+				return c15AfterExit(rig, c, rec, sent, "")
+			}
+		}
 		line := events[e].Lines[next[e]]
 		next[e]++
 		open[e] = next[e] < len(events[e].Lines)
@@ -508,6 +523,14 @@ func execC15(c c15Case) Outcome {
 	}
 	if c.Kind == "invalid_login" {
 		return c15InvalidLogin(rig, c)
+	}
+	if lateLogin {
+		if err := rig.login(l1); err != nil {
+			return c15AfterExit(rig, c, rec, sent, "")
+		}
+		if err := rig.loginBarrier(); err != nil {
+			return c15AfterExit(rig, c, rec, sent, "")
+		}
 	}
 	if err := rig.auditBarrier(); err != nil {
 		return c15AfterExit(rig, c, rec, sent, "")
